@@ -28,3 +28,10 @@ package nsqadmin
 //@   requires n != nil && n.httpListener != nil && httpServer != nil
 //@   ensures[one-http-server-and-its-result-reported] r7ServeReturns == old(r7ServeReturns) + 1 && r7AdmExitReported == r7ServeResult
 //@   ensures[on-the-daemons-listener] r5HSrvListener == old(n.httpListener)
+
+// indexHandler$1 (the template function "basePath"): the configured base path joined with the given path; no effect.
+//@ func (s *httpServer) indexHandler$1(p string) string
+//@   props C18
+//@   nochan
+//@   requires s != nil
+//@   modifies
